@@ -657,3 +657,45 @@ Definition cmd_ok (g : gcfg) (e : ev) : Prop :=
   | EPutToPeers _ _ ps => NoDup ps
   | _ => True
   end.
+
+(* ---- fairness vocabulary ---- *)
+(* events that give the node new work *)
+Definition is_input (e : ev) : bool :=
+  match e with ECmd _ _ _ _ | EPutToPeers _ _ _ | EInbound _ _ => true | _ => false end.
+
+(* the event answers something that is owed: the drain loop serves a query that has an action; the
+   environment delivers the result of a queued dial, of a pending substream, of an executor future *)
+Definition productive (s : st) (e : ev) : Prop :=
+  match e with
+  | EServe q => snd (serve s q) = true
+  | EEstablished p _ =>
+      aget p (conn s) = None /\ aget p (peers s) = None /\ exists a acts, aget p (pdial s) = Some (a :: acts)
+  | EDialFail p => exists a acts, aget p (pdial s) = Some (a :: acts)
+  | EOpened p sid => exists acts a, aget p (peers s) = Some acts /\ aget sid acts = Some a
+  | EOpenFail sid =>
+      exists p acts a, aget sid (psub s) = Some p /\ aget p (peers s) = Some acts /\ aget sid acts = Some a
+  | EFut id r => exists f, find_fut id (futs s) = Some f /\ res_ok (f_kind f) r = true
+  | _ => False
+  end.
+
+(* a schedule without new work in which every event is productive *)
+Fixpoint fair_run (g : gcfg) (s : st) (es : list ev) : Prop :=
+  match es with
+  | [] => True
+  | e :: t => is_input e = false /\ productive s e /\ fair_run g (fst (fst (step g s e))) t
+  end.
+
+(* nothing productive is enabled any more *)
+Definition stuck (s : st) : Prop := forall e, ~ productive s e.
+
+(* the explicit bound: what each piece of new work may cost in later productive events
+   (n = size of the peer universe, k = replication factor) *)
+Definition budget1 (n : nat) (g : gcfg) (e : ev) : nat :=
+  match e with
+  | ECmd _ _ _ _ => (10 * n + 5 * N.to_nat (g_k g) + 2)%nat
+  | EPutToPeers _ _ ps => (5 * length ps + 2)%nat
+  | EInbound _ _ => 2%nat
+  | _ => 0%nat
+  end.
+Fixpoint budget (n : nat) (g : gcfg) (es : list ev) : nat :=
+  match es with [] => 0%nat | e :: t => (budget1 n g e + budget n g t)%nat end.
